@@ -65,4 +65,57 @@ theorem inv_run {c : Cfg} (sched : List (Nat × Nat)) : ∀ {s : State}, Inv c s
   | nil => intro s h; exact h
   | cons tk rest ih => intro s h; exact ih (inv_sstep h tk)
 
+/-- cancellation / loss is always backed by the destruction of the un-invoked closure -/
+theorem cancelled_le_dropped {c : Cfg} {s : State} (h : Inv c s) (j : Nat) :
+    s.cancelled j + s.lost j ≤ s.dropped j := by
+  have h1 := h.b_co j
+  have h2 := h.b_guard j
+  have h3 := h.b_fut j
+  have h4 := h.b_none j
+  have h5 := h.b_lost j
+  cases hk : dropKind c (s.kind j) with
+  | resume =>
+    have a := h1 hk
+    have b := h5 (by rw [hk]; decide)
+    split at a <;> omega
+  | guard =>
+    have a := h2 hk
+    have b := h5 (by rw [hk]; decide)
+    omega
+  | breakPromise =>
+    have a := h3 hk
+    have b := h5 (by rw [hk]; decide)
+    cases ha : s.armed j with
+    | true => have := a.1 ha; omega
+    | false => have := a.2 ha; omega
+  | nothing => have := h4 hk; omega
+
+theorem run_append (c : Cfg) (s : State) (a b : List (Nat × Nat)) : run c s (a ++ b) = run c (run c s a) b := by
+  induction a generalizing s with
+  | nil => rfl
+  | cons x xs ih => exact ih (sstep c s x)
+
+/-- one step of a thread under the baton scheduler (what `harness/h_pool.cpp` replays against the real header) is a
+sequence of small steps of that thread -/
+theorem threadStep_is_run (c : Cfg) (fuel : Nat) : ∀ (s : State) (t : Nat),
+    ∃ n, (threadStep c fuel s t).1 = run c s (List.replicate n (t, 0)) := by
+  induction fuel with
+  | zero => intro s t; exact ⟨0, rfl⟩
+  | succ f ih =>
+    intro s t
+    unfold threadStep
+    split
+    · rename_i hen
+      have hs : sstep c s (t, 0) = (step c s t 0).1 := by simp [sstep, hen]
+      split
+      · rename_i s1 e1 heq
+        obtain ⟨n, hn⟩ := ih s1 t
+        refine ⟨n + 1, ?_⟩
+        simp only [List.replicate_succ, run, hs, heq]
+        exact hn
+      · rename_i s1 e1 o _ heq
+        refine ⟨1, ?_⟩
+        simp only [List.replicate_succ, List.replicate_zero, run, hs, heq]
+    · exact ⟨0, rfl⟩
+
 end Cocls.Pool
